@@ -525,6 +525,38 @@ class Gen:
         if w.heap:
             yield self.g_calc(w)
 
+    EM_PAIRS = [("G", "T"), ("T", "G"), ("C", "statC"), ("statC", "C"), ("A", "statA"), ("statA", "A"), ("V", "statV"),
+                ("Mx", "Wb"), ("Oe", "A")]
+
+    def s_em(self, w):
+        """cgs <-> mks electromagnetic counterparts: the conversion looks the PARTNER symbol up, so it is the
+        partner that is edited between two conversions of the same object."""
+        r = self.rng
+        ni = self.pick_node(w, custom=True)
+        if ni is None:
+            yield self.g_new_node(w, route=r.choice(["plain", "usys"]))
+            ni = len(w.nodes) - 1
+        a, b = r.choice(self.EM_PAIRS)
+        model = w.nodes[ni % len(w.nodes)].model
+        if a not in model or b not in model:
+            return
+        sp = a if r.random() < 0.6 else r.choice(["m", "k", "M"]) + a
+        yield {"k": "quantity", "node": ni, "h": 0, "v": r.choice(VALUES), "s": sp, "route": "ctor", "store": True}
+        x = w.last_stored
+        sysn = r.choice(["mks", "cgs", "cgs", "mks", None])
+        how = r.choice(["in_base", "in_base", "in_cgs", "in_mks", "get_base_equivalent"])
+        yield {"k": "base", "x": x, "sys": sysn, "how": how, "store": False}
+        if r.random() < 0.3:
+            yield {"k": "to", "x": x, "s": b, "how": "to", "store": False}
+        tgt = b if r.random() < 0.7 else a
+        yield r.choice([{"k": "modify", "node": ni, "h": 0, "sym": tgt, "value": r.choice(SCALES)},
+                        {"k": "modify", "node": ni, "h": 0, "sym": tgt, "value": r.choice(SCALES)},
+                        {"k": "remove", "node": ni, "h": 0, "sym": tgt}])
+        yield {"k": "base", "x": x, "sys": sysn, "how": how, "store": False}
+        yield {"k": "to", "x": x, "s": b, "how": "to", "store": False}
+        yield {"k": "quantity", "node": ni, "h": 0, "v": r.choice(VALUES), "s": sp, "route": "ctor", "store": True}
+        yield {"k": "base", "x": w.last_stored, "sys": sysn, "how": how, "store": False}
+
     def s_usys_define(self, w):
         """A registry whose default unit system is not mks, and symbols defined in it from (value, unit)
         tuples / quantities: what is stored is value*unit in MKS, whatever the registry converts to."""
@@ -641,7 +673,7 @@ class Gen:
                 ("s_stale", c["w_stale"]), ("s_cross", c["w_cross"]), ("s_refusal", c["w_refusal"]),
                 ("s_default", c["w_default"]), ("s_restart", c["w_restart"]), ("s_usys", c["w_usys"]),
                 ("s_usys_custom", c.get("w_usys_custom", 0)), ("s_usys_define", c["w_usys"] * 0.7),
-                ("s_quotient", 0.5 * c["w_calc"] / 4.0),
+                ("s_quotient", 0.5 * c["w_calc"] / 4.0), ("s_em", 0.6 if c["profile"] == "C12" else 0.2),
                 ("s_shared_units", 0.4 if c["profile"] == "C13" else 0.15), ("s_default_copy", 0.4 if c["profile"] == "C13" else 0.1), ("s_empty_define", 0.3 if "empty" in c["routes"] or c["profile"] == "C13" else 0.1),
                 ("new_node", c["w_new_node"]), ("edit", c["w_edit"]), ("probe", c["w_probe"]),
                 ("calc", c["w_calc"]), ("chaos", c["w_chaos"]),
